@@ -10,7 +10,7 @@ m = {
  "property": a["property"],
  "summary": a["summary"],
  "needs": a["needs"],
- "produced_by": f"independent sub-agent given only the property text and a scratch worktree of /repo (HEAD 650ab45); {note}",
+ "produced_by": f"independent sub-agent given only the property text and a scratch worktree of /repo (HEAD b194f89); {note}",
  "confirmed_by_me": [
   f"tools/verify_seeded.sh /tmp/wt/{name} : demo fails with the change, 443+2 baseline tests pass with the change, demo passes without the change",
  ] + [f"tools/try_patch.sh seeded/{name}/patch.diff {c} : git -C /repo apply, python3 run.py check {c} (quick tier, reduced scale), git -C /repo checkout -- ." for c in checks.split(",")],
